@@ -59,7 +59,27 @@ def _labels(ns, U):
 # building
 
 
-@with_history
+def _warmup(h):
+    """Ask every wrapper once (no filter and size=2); results are discarded."""
+    import importlib
+    cc = importlib.import_module("hypergraphx.utils.cc")
+    deg = importlib.import_module("hypergraphx.measures.degree")
+    for kw in ({}, {"size": 2}):
+        deg.degree_sequence(h, **kw)
+        deg.degree_distribution(h, **kw)
+        cc.connected_components(h, **kw)
+        cc.num_connected_components(h, **kw)
+        cc.largest_component(h, **kw)
+        cc.largest_component_size(h, **kw)
+        cc.isolated_nodes(h, **kw)
+        cc.is_connected(h, **kw)
+        for n in h.get_nodes():
+            cc.node_connected_component(h, n, **kw)
+            cc.is_isolated(h, n, **kw)
+            h.degree(n, **kw)
+
+
+@with_history(warmup=_warmup)
 def build_hypergraph(case):
     """Returns (Hypergraph, node list, set of frozenset hyperedges, trace)."""
     from hypergraphx import Hypergraph
